@@ -34,6 +34,20 @@ STRENGTH.update({
  "C16-2":"part (c): single-version conversations in every state x input in the form of the forbidden version (foreign exchange messages, version field rewritten, genuine next message wrapped in the other version's fragment format)",
  "C17-2":"6/11/16-account key files with the first name grown char by char over a whole entry (every token slid over every 4096-byte reader boundary) and chunked readers (short reads)",
  "C20-2":"package-state comparison now hashes everything reachable (maps, interfaces, integers/arrays behind pointers), not only byte buffers: the shared hash.Hash state is seen by the exhaustive part too"})
+BEFORE.update({
+ "C01-3":"caught","C02-3":"missed","C03-3":"missed by C03 (caught by C05 and C10)","C04-3":"caught","C05-3":"caught","C06-3":"caught","C07-3":"missed","C08-3":"caught","C09-3":"caught","C10-3":"missed",
+ "C11-3":"missed (caught by C01)","C12-3":"caught","C13-3":"missed","C14-3":"missed (caught by C15)","C15-3":"missed (caught by C14)","C16-3":"missed","C17-3":"caught","C18-3":"caught","C19-3":"missed","C20-3":"caught (exhaustive part and race pass)"})
+STRENGTH.update({
+ "C02-3":"consistent re-encodings of the authenticated part (next D-H key with 1/2/7 leading zero bytes, ciphertext lengthened/shortened with its length word adjusted)",
+ "C03-3":"wire monitor: two data messages of one sender under the same AES key and counter (key-stream reuse makes the text readable without any key)",
+ "C07-3":"start state 'one side restarted and lost the session'; a trigger that starts no exchange although the ignore window has expired is a violation (was tolerated)",
+ "C10-3":"scripted randomness: tiny D-H exponents, so that shared secrets are 1, 191 and 192 bytes long (MPI of the secret with and without leading zero bytes); this exposed a genuine crash (encrypt() on data shorter than an AES block, fix b9562a1)",
+ "C11-3":"sessions that came about by a refresh (Hr) and by a re-key after one side ended and its disconnect was lost (Ha)",
+ "C13-3":"state 'fragment 1 of 65535 received' and sizeable continuation pieces (100 / 8192 / 60000 bytes): allocation per input",
+ "C14-3":"arrival-sequence search from first contact (receiver not yet bound to a peer instance), with pieces of a second instance that would continue the stream",
+ "C15-3":"state right after a fragmented message was reassembled; ill-formed carriers of valid tags (fragment with non-numeric counter, D-H Commit cut in its body) must not bind — genuine defect found and fixed (dab2f3e)",
+ "C16-3":"part (d): every policy without a version x every OTR-looking message kind (queries, error reports, encoded messages, fragments, tags): Receive and Send are the identity",
+ "C19-3":"letter E (error report delivered) in the pattern alphabet, one text each way before the periodic part"})
 rows=[]
 for d in sorted(glob.glob(os.path.join(ROOT,'seeded','C*'))):
     pid=os.path.basename(d)
